@@ -66,6 +66,13 @@ CHECKS["C01"] = {
     "technique": "TLA+ spec + TLC (free-group algebra of plans); behaviours replayed into the library; dispatch-hook conformance; catalogue lattice as validated assumption",
 }
 
+CHECKS["C14"] = {
+    "text": "PARTIAL. Decided: (a) Minimal and Plain are two implementations of the one Context/Pipeline specification: every behaviour TLC generates from Pipeline.tla for C03 and C04 and one definition per built-in operator / parameterisation is executed in both and the observation sequences (Ok/Err, steps, counts, result bits, both directions) must be identical; (b) the mappings adapt, axisswap and unitconvert share are derived from Adapt.tla by TLC (384 signed permutations, the angular unit changes) and the real operators must agree bit for bit. NOT decided: tmerc vs btmerc, cart vs GeoCart, wrapper operators vs ellipsoid methods, series vs closed forms/quadrature - pairs of floating-point routes with no discrete content for a specification.",
+    "design_ref": "DESIGN.md §5.14",
+    "note": "Bounded as C03/C04 quick. Error texts are not compared (they may name the provider).",
+    "technique": "TLA+ spec + TLC-generated behaviours replayed into two implementations (differential, bit for bit); TLC-derived shared mappings replayed",
+}
+
 _claimed = set(CHECKS)
 _NA_FIXED = {
     "C05": NA_REASON_NUMERIC,
